@@ -98,6 +98,13 @@ def rand_segments(rng, nmax=6):
         if k == 'J' and prev_junk:
             k = 'F'
         c, i = rng.choice(CIDS) if rng.random() < 0.7 else (rng.randrange(256), rng.randrange(256))
+        if k == 'F' and segs and segs[-1][0] == 'F' and rng.random() < 0.15:
+            # the same frame again, byte for byte (a receiver repeating itself; gpsd forwarding a frame twice)
+            segs.append(segs[-1])
+            out += frame(segs[-1][1], segs[-1][2], segs[-1][3])
+            kinds.append('frame-repeated')
+            prev_junk = False
+            continue
         if k in 'FB':
             n = rng.choice(LEN_BIAS) if rng.random() < 0.8 else rng.randrange(0, 1001)
             if nmax > 12:
@@ -144,7 +151,7 @@ def near_cids(c, i):
             out.add((c << k, i - k))
         if i + k < 256 and c % (1 << k) == 0:
             out.add((c >> k, i + k))
-    out |= {(i, c), ((c + 1) % 256, i), (c, (i + 1) % 256), ((c + 16) % 256, i), (c, i ^ 0x80), (c ^ 0x80, i),
+    out |= {(i, c), ((c + 1) % 256, i), (c, (i + 1) % 256), ((c - 1) % 256, i), (c, (i - 1) % 256), ((c + 16) % 256, i), (c, i ^ 0x80), (c ^ 0x80, i),
             ((c + i) % 256, 0), (0, (c + i) % 256), (c ^ i, 0)}
     out.discard((c, i))
     return sorted(out)
@@ -321,8 +328,9 @@ def _impl_ubx(filt, ops, check_mutation=True):
         if o[0] == 'P':
             # the API takes any bytes-like / iterable of ints: alternate the container type
             data = o[1]
-            kind = (len(data) + n_op) % 3
-            p.process(bytes(data) if kind == 0 else bytearray(data) if kind == 1 else list(data))
+            kind = (len(data) + n_op) % 5
+            p.process(bytes(data) if kind == 0 else bytearray(data) if kind == 1 else list(data) if kind == 2
+                      else iter(bytes(data)) if kind == 3 else (x for x in bytes(data)))
             if n_op % 2:
                 other.process(b'\xb5\x62\x06\x01\x02\x00\xaa')
         elif o[0] == 'F':
